@@ -24,6 +24,7 @@ Verdict(r) ==
   ELSE IF p.exc # o.exc THEN "errclass"
   ELSE IF p.log # o.log THEN "calllog"
   ELSE IF p.out # o.out THEN "reports"
+  ELSE IF p.gens # o.gens THEN "pulls"
   ELSE IF p.v # o.v THEN "value"
   ELSE IF p.cells # o.cells THEN "cells"
   ELSE ""
